@@ -43,6 +43,7 @@ func mkID(n uint64) uuid.UUID {
 
 var errUUID = errors.New("simulated entropy failure")
 
+//go:norace
 func (g *detGen) NewV4() (uuid.UUID, error) {
 	if g.failNext {
 		g.failNext = false
@@ -116,6 +117,7 @@ type stub struct {
 	world    *World
 	core     *Core
 	job      string
+	pipeline string
 	ordinal  int
 	env      map[string]string
 	onChange func(t *task.Task)
@@ -175,7 +177,11 @@ func (s *stub) Run(t *task.Task) error {
 
 	if s.ioErr {
 		if code := s.core.park("task.open", "task.open:"+s.job+"/"+t.Name, s, lkNone); code == outIOErr {
-			s.ev("run-exit", t.Name, "ioerr")
+			if t.AllowFailure {
+				s.ev("run-exit", t.Name, "ioerr-allowed") // the task failed before its first command, and may
+			} else {
+				s.ev("run-exit", t.Name, "ioerr")
+			}
 			return errors.New("creating task output log file: simulated I/O error")
 		}
 	}
@@ -456,7 +462,7 @@ func (run *Run) newWorldIn(dir string, initial *store.PersistedData, defs DefSet
 // the runner's write lock.
 func (w *World) newStub(j *prunner.PipelineJob) *stub {
 	name := jobName(j.ID)
-	s := &stub{world: w, core: w.run.core, job: name, env: cloneMap(j.Env), ioErr: w.run.sc.Cfg.PIOErr > 0}
+	s := &stub{world: w, core: w.run.core, job: name, pipeline: j.Pipeline, env: cloneMap(j.Env), ioErr: w.run.sc.Cfg.PIOErr > 0}
 	s.ctx, s.cancelFn = context.WithCancel(context.Background())
 	w.stubsMu.Lock()
 	w.stubs[name] = append(w.stubs[name], s)
